@@ -860,7 +860,7 @@ def _subscript_bounds(f_node: ast.AST, use: ast.AST, k: str, base: str) -> Tuple
     return lo, hi
 
 
-def rule_raw_number_subscripts(ctx, rep, rid: str, modules: Tuple[str, ...] = ("vm", "values", "context")) -> None:
+def rule_raw_number_subscripts(ctx, rep, rid: str, modules: Tuple[str, ...] = ("vm", "values", "context"), booleans: bool = False) -> None:
     """A fast path that takes a script value, finds it to be a host int (type(key) is int) and uses it as the
     subscript of a host string or list skips the decimal-key parser, which only ever yields canonical non-negative
     indices: the raw int can be negative (Python then counts from the end, and raises IndexError below -len) and
@@ -906,7 +906,17 @@ def rule_raw_number_subscripts(ctx, rep, rid: str, modules: Tuple[str, ...] = ("
             judged += 1
             key = f"{f.qual}:{base}[{k}]"
             lo, hi = _subscript_bounds(f.node, n, k, base)
-            if lo and hi:
+            # isinstance(k, int) also holds for the host's booleans: true and false are not indices
+            exact = False
+            for t, pol in conds:
+                for a, p in atoms(t, pol):
+                    if p and isinstance(a, ast.Compare) and isinstance(a.left, ast.Call) and norm(a.left.func) == "type" and a.left.args and norm(a.left.args[0]) == k:
+                        exact = True
+                    if isinstance(a, ast.Call) and norm(a.func) == "isinstance" and len(a.args) == 2 and norm(a.args[0]) == k and norm(a.args[1]) == "bool" and not p:
+                        exact = True
+            if not exact and booleans:
+                rep.bad(rid, key, f"{f.qual} reads {base}[{k}] after finding `{k}` to be an int with isinstance, which the host's booleans pass as well (bool is a subclass of int): \"abc\"[true] is then \"b\" where the property named 'true' is undefined", f"{f.module.rel}:{n.lineno}")
+            elif lo and hi:
                 rep.ok(rid, key)
             else:
                 miss = " and ".join(w for w, have in ((f"0 <= {k}", lo), (f"{k} < len({base})", hi)) if not have)
